@@ -74,6 +74,16 @@ def monitor_invalid(name, S, arg, r, cfg, driver, order, out, tier, label=''):
             viol('model-fails-node', dd, f'model of open branch {bi} fails node {d.get("node")} ({d.get("diag")})',
                  branch=[tabs.show_spec(tabs.node_spec(n)) for n in b][:40], model=I.describe(), detail=d)
             continue
+        if S.classical:
+            out.count('classical_identity_checks')
+            probs = classical_identity_problems(I)
+            if probs:
+                analysis = identity_branch_analysis(b)
+                viol('model-violates-classical-identity',
+                     dict(clause='model-violates-classical-identity', problems='+'.join(probs), branch_analysis=analysis),
+                     f'model of open branch {bi} is not a classical model ({probs}); branch analysis: {analysis}',
+                     branch=[tabs.show_spec(tabs.node_spec(n)) for n in b][:40], model=I.describe())
+                continue
         if not S.frame_ok(I.R, I.worlds):
             viol('frame-condition', dict(clause='model-violates-frame-condition', frame=S.frame),
                  f'model access {sorted((x, y) for x in I.R for y in I.R[x])} violates {S.frame}', model=I.describe())
@@ -99,6 +109,97 @@ def monitor_invalid(name, S, arg, r, cfg, driver, order, out, tier, label=''):
             viol('library-test-disagrees', diag,
                  f'model is a countermodel by REF-SEM but is_countermodel_to() says {lib_cm} ({err})', model=I.describe())
     return vs
+
+
+def classical_identity_problems(I):
+    "Which classical constraints on identity/existence the exported model data violates."
+    probs = set()
+    dom = I.domain
+    for w in I.worlds:
+        idv = lambda c1, c2: I.preds.get((w, syn.IDENTITY, (c1, c2)), 'F') == 'T'
+        for c1 in dom:
+            if not idv(c1, c1):
+                probs.add('not-reflexive')
+            if I.preds.get((w, syn.EXISTENCE, (c1,)), 'F') != 'T':
+                probs.add('existence-not-universal')
+            for c2 in dom:
+                if idv(c1, c2) and not idv(c2, c1):
+                    probs.add('not-symmetric')
+                for c3 in dom:
+                    if idv(c1, c2) and idv(c2, c3) and not idv(c1, c3):
+                        probs.add('not-transitive')
+        for (ww, p, ps), v in I.preds.items():
+            if ww != w or v != 'T' or p == syn.IDENTITY:
+                continue
+            for i, c1 in enumerate(ps):
+                for c2 in dom:
+                    if c2 != c1 and idv(c1, c2) and I.preds.get((w, p, ps[:i] + (c2,) + ps[i + 1:]), 'F') != 'T':
+                        probs.add('extension-not-closed-under-identity')
+    return sorted(probs)
+
+
+def identity_branch_analysis(branch):
+    """Why can an open branch have no classical model? Literal predications per world:
+    'closes-under-library-rule'   the library's own identity rule (replace every occurrence of one side by the other in a
+                                  positive predication) derives a contradiction that is not on the branch: rule not applied;
+    'closes-under-congruence-only' only symmetric / position-wise substitution closes it: the rule is incomplete;
+    'satisfiable'                 the literals have a classical model: only the model builder is at fault."""
+    lits = {}
+    for n in branch:
+        sp = tabs.node_spec(n)
+        if sp[0] != 'S':
+            continue
+        s, w = sp[1], sp[3]
+        neg = False
+        if s[0] == 'O' and s[1] == 'Negation':
+            neg, s = True, s[2][0]
+        if s[0] == 'P':
+            lits.setdefault(w, set()).add((neg, s[1], s[2]))
+    verdicts = []
+    for w, ls in lits.items():
+        pos = {(p, ps) for neg, p, ps in ls if not neg}
+        negs = {(p, ps) for neg, p, ps in ls if neg}
+        # (1) the library rule, to a fixpoint
+        cur = set(pos)
+        for _ in range(12):
+            new = set()
+            for p, ps in cur:
+                if p != syn.IDENTITY or ps[0] == ps[1]:
+                    continue
+                pa, pb = ps
+                for q, qs in cur:
+                    if (q, qs) == (p, ps):
+                        continue
+                    if pa in qs:
+                        rs = tuple(pb if x == pa else x for x in qs)
+                    elif pb in qs:
+                        rs = tuple(pa if x == pb else x for x in qs)
+                    else:
+                        continue
+                    new.add((q, rs))
+            if new <= cur:
+                break
+            cur |= new
+        lib_closed = any(x in negs for x in cur) or any(p == syn.IDENTITY and ps[0] == ps[1] for p, ps in negs)
+        # (2) congruence closure
+        rep = {}
+
+        def find(x):
+            while rep.get(x, x) != x:
+                x = rep[x]
+            return x
+        for p, ps in pos:
+            if p == syn.IDENTITY:
+                rep[find(ps[0])] = find(ps[1])
+        norm = lambda ps: tuple(find(x) for x in ps)
+        posn = {(p, norm(ps)) for p, ps in pos}
+        cong_closed = any((p, norm(ps)) in posn for p, ps in negs if p != syn.IDENTITY) \
+            or any(find(ps[0]) == find(ps[1]) for p, ps in negs if p == syn.IDENTITY)
+        verdicts.append('closes-under-library-rule' if lib_closed else 'closes-under-congruence-only' if cong_closed else 'satisfiable')
+    for v in ('closes-under-library-rule', 'closes-under-congruence-only'):
+        if v in verdicts:
+            return v
+    return 'satisfiable'
 
 
 # ------------------------------------------------------------------ shared
